@@ -189,6 +189,17 @@ impl SeqModel for C15 {
         }
         env.world.lock().unwrap().reset_log();
         let es = |e: Box<rustic_core::RusticError>| e.display_log();
+        // dry runs: the count thresholds at which an indexer or packer flushes by itself (50 000
+        // blobs, out of reach of small inputs) are lowered to 1, so that every "collect now, write
+        // at the end" path shows whether its writes are guarded
+        let is_dry = matches!(
+            a,
+            Act::Backup { dry: true } | Act::RepairIndex { dry: true, .. } | Act::RepairSnapshots { dry: true, .. } | Act::Rewrite { dry: true, .. } | Act::PrunePlan(_)
+        );
+        if is_dry {
+            rustic_core::verif::limits::set_indexer_max_count(1);
+            rustic_core::verif::limits::set_packer_max_count(1);
+        }
         // run the real operation; Ok(description) or Err(message)
         let result: Result<String, String> = (|| {
             match a {
@@ -305,6 +316,10 @@ impl SeqModel for C15 {
                 Act::LosePack => unreachable!(),
             }
         })();
+        if is_dry {
+            rustic_core::verif::limits::set_indexer_max_count(0);
+            rustic_core::verif::limits::set_packer_max_count(0);
+        }
         let (muts, after) = {
             let w = env.world.lock().unwrap();
             (w.log.iter().filter(|o| o.kind.is_mut()).count(), w.stores[0].clone())
